@@ -189,8 +189,10 @@ inductive Pc
   | decide
   /-- initiator selection loop head -/
   | cloop (forced : Bool)
-  /-- receiver selection loop head -/
+  /-- receiver selection loop head: read a selection -/
   | sloop
+  /-- receiver: the element just read is looked up -/
+  | selected (item : Peer)
   /-- after the loop: the ready decision -/
   | tail (mask : St) (restart : Bool)
   /-- back in `negotiateSession` with the negotiator's result -/
@@ -359,17 +361,18 @@ def step (C : List Feature) (O : Oracle) (c : Conf) : Conf :=
     else match c.script with
       | [] => { c with io := c.io + 1, tr := .rd .sel .eof :: c.tr, pc := .fail .io }
       | item :: r =>
-        let c := { c with io := c.io + 1, tr := .rd .sel .got :: c.tr, script := r }
-        match item.selName with
-        | none => c.goto (.fail .proto)
-        | some (name, iq, payload) =>
-          if iq && !payload then c.goto (.fail .proto)
-          else match c.cache.get name.ns with
-            | none => (c.log (.refuse name)).goto (.fail .policy)
-            | some e =>
-              if c.negd.contains name.ns || !e.f.negotiable || !eligible c.st e.f then
-                (c.log (.refuse name)).goto (.fail .policy)
-              else negotiate O c e false .sloop
+        { c with io := c.io + 1, tr := .rd .sel .got :: c.tr, script := r, pc := .selected item }
+  | .selected item =>
+    match item.selName with
+    | none => c.goto (.fail .proto)
+    | some (name, iq, payload) =>
+      if iq && !payload then c.goto (.fail .proto)
+      else match c.cache.get name.ns with
+        | none => (c.log (.refuse name)).goto (.fail .policy)
+        | some e =>
+          if c.negd.contains name.ns || !e.f.negotiable || !eligible c.st e.f then
+            (c.log (.refuse name)).goto (.fail .policy)
+          else negotiate O c e false .sloop
   | .tail mask restart =>
     if !c.lreq && !restart then c.goto (.ret (mask ||| bReady) restart) else c.goto (.ret mask restart)
   | .ret mask restart =>
